@@ -2,11 +2,12 @@
    Only statements here; proofs live in proofs/LoadProofs.v.
    [reset e s fill]: e says which device buffers are locked by another thread and gives the
    timers' new draws; fill is the value of the Known initialisation strategy in the flags.
-   Breakpoints are not a field of the model's [sim] record (they only matter to `run`); that they
-   survive a reset is checked directly on the implementation by the harness (area load). *)
+   Breakpoints and the pause status of the last run-style call are not fields of the model's [sim]
+   record (they only matter to `run`); they are the [session] of model/Session.v, tied to the
+   implementation by the `session.reset` correspondence cases of harness area load. *)
 From Coq Require Import ZArith List Bool.
-From Model Require Import Word Sim Load.
-From Proofs Require Import LoadProofs.
+From Model Require Import Word Sim Load Run Session.
+From Proofs Require Import LoadProofs SessionProofs.
 Import ListNotations.
 Open Scope Z_scope.
 
@@ -50,3 +51,18 @@ Example C30_ex :
   s_pc r = 12288 /\ mget (s_mem r) 12288 = new_uninit 9 /\ rget (s_regs r) 3 = new_uninit 9 /\
   s_devs r = [DNull; DKb [] false; DDs []] /\ s_flags r = mkFlags true false true false.
 Proof. vm_compute. repeat split. Qed.
+
+(* the non-machine part: breakpoints are kept (and stop runs exactly as before), the halt / breakpoint
+   status is that of a new simulator (neither) *)
+Theorem C30_session_keeps_breakpoints : forall e fill ss s,
+  ss_bps (session_reset e fill ss) = ss_bps ss /\
+  ss_sim (session_reset e fill ss) = reset e (ss_sim ss) fill /\
+  any_bp (ss_bps (session_reset e fill ss)) s = any_bp (ss_bps ss) s.
+Proof. intros. repeat split. Qed.
+Print Assumptions C30_session_keeps_breakpoints.
+Theorem C30_session_pause_status : forall e fill ss,
+  ss_pause (session_reset e fill ss) = ss_pause (session_new (s_flags (ss_sim ss)) fill) /\
+  hit_halt (ss_pause (session_reset e fill ss)) = false /\
+  hit_breakpoint (ss_pause (session_reset e fill ss)) = false.
+Proof. exact session_reset_pause. Qed.
+Print Assumptions C30_session_pause_status.
